@@ -150,6 +150,12 @@ def r2(F, R):
                     kb = F.body(rv["def"])
                     if kb is not None and any(callee_is(t, r"FutureExt::catch_unwind$") for nb in F.nested(kb) for _, t in nb.calls()):
                         from_catch = True
+        if not from_catch:
+            # ... or of an awaited crate-local `async fn` helper (`Self::init_step_world().await`) that contains it
+            for cs, ct in ds.calls:
+                cb = F.callee_body(ct, b.crate)
+                if cb is not None and any(callee_is(t2, r"FutureExt::catch_unwind$") for nb in F.nested(cb) for _, t2 in nb.calls()):
+                    from_catch = True
         inst = f"payload/{name}@{F.root_fn(b).short.rsplit('::', 1)[-1]}/{s.loc.rsplit(':', 1)[-1] if False else ''}"
         # the caught `Box<dyn Any + Send>` must be converted (Info::from / into), never wrapped as a value of its own
         ch = A.receiver_chain(b, op)
